@@ -404,6 +404,42 @@ func (b *BaseStore) holdsOnlyOwnEntries(log ipfslog.Log) bool {
 	return true
 }
 
+// joinEntriesOneByOne merges into oplog the entries of l that are accepted on
+// their own, keeping at most amount entries when amount is positive.
+func (b *BaseStore) joinEntriesOneByOne(oplog ipfslog.Log, l ipfslog.Log, amount int) {
+	for _, e := range l.GetEntries().Slice() {
+		if e.GetLogID() != b.id {
+			continue
+		}
+
+		if _, ok := oplog.Get(e.GetHash()); ok {
+			continue
+		}
+
+		single, err := ipfslog.NewLog(b.IPFS(), b.Identity(), &ipfslog.LogOptions{
+			ID:               oplog.GetID(),
+			AccessController: b.AccessController(),
+			SortFn:           b.SortFn(),
+			IO:               b.options.IO,
+			Entries:          entry.NewOrderedMapFromEntries([]ipfslog.Entry{e}),
+			Heads:            []ipfslog.Entry{e},
+		})
+		if err != nil {
+			b.logger.Debug("unable to create a log for an entry", zap.Error(err))
+			continue
+		}
+
+		size := -1
+		if amount > 0 && amount <= oplog.Len() {
+			size = amount
+		}
+
+		if _, err := oplog.Join(single, size); err != nil {
+			b.logger.Debug("entry of a cached head refused", zap.Error(err))
+		}
+	}
+}
+
 func (b *BaseStore) isClosed() bool {
 	select {
 	case <-b.ctx.Done():
@@ -645,11 +681,20 @@ func (b *BaseStore) Load(ctx context.Context, amount int) error {
 			}
 
 			span.AddEvent("store-heads-joining")
-			if _, inErr = oplog.Join(l, size); inErr != nil {
+			if !b.holdsOnlyOwnEntries(l) {
+				inErr = fmt.Errorf("the head leads to entries of another database")
+			} else {
+				_, inErr = oplog.Join(l, size)
+			}
+
+			if inErr != nil {
 				span.AddEvent("store-heads-joining-failed")
-				// err = fmt.Errorf("unable to join log: %w", err)
-				// TODO: log
-				_ = inErr
+				// Join refuses a log as a whole when one of its entries is refused.
+				// These entries were merged one at a time when they were received,
+				// the refused ones being left out: do the same here, so that what
+				// the store held before it was closed is not forgotten
+				b.logger.Debug("unable to join the log of a cached head, joining its entries one at a time", zap.Error(inErr))
+				b.joinEntriesOneByOne(oplog, l, amount)
 			} else {
 				span.AddEvent("store-heads-joined")
 			}
